@@ -34,14 +34,14 @@ LEVEL_TEXT = ('Lean 4 theorems over a line-by-line model of the digestion loops 
               'including replay of recorded real token streams. Carried by correspondence only: which macro emits which phantom token and context depth, paragraphs(), '
               'argument parsing of \\item[..]/\\multicolumn/\\cline, which adjacent row a rule-only row marks at table level (Array.applyBorders loop: modelled, compared with the Spec denotation denTable on every run, not proved).')
 LEVEL_NOTE = ('Trusted: Lean kernel (axioms propext, Classical.choice, Quot.sound only), translator (ColumnType.columnTypes), the correspondence harness, its canonicaliser '
-              '(blanks and par wrappers dropped, text compared per character) and generators, CPython. Not verified: longtable, tabularx widths, booktabs trim, linkCells colspecStart/End.')
+              '(blanks dropped; par wrappers dropped inside items/cells/groups/environments but shown as a direct child of a list, array or row; text compared per character) and generators, CPython. Not verified: longtable, tabularx widths, booktabs trim, linkCells colspecStart/End.')
 TECHNIQUE = 'Lean 4 proof (mutual structural induction over document trees / specification trees, exact fuel accounting) + regenerated column-type table + differential correspondence incl. recorded token streams'
 TRUSTED = ['python oracle harness/props/c10.py:expect_* (the generator\'s own expectation for the doc10 stream)',
            'recording shim replacing plasTeX.TeX.bufferediter inside the harness process']
 ASSUMPTIONS = ['rule normal form for the Spec denotation of tables: \\hline/\\cline at the start of a row or alone in a row; \\cline spans aligned with cell boundaries',
                'a bare font declaration directly in an item body (\\item \\bfseries x \\item y) is outside the generated grammar: its node absorbs the following items (observed, reported)',
                'MathShift.inEnv and List.depth (class-level state) are reset by the harness before every document']
-RULE = ('trees generated recursively from the seed: lists (3 kinds, depth<=4, terms, multi-paragraph items, groups/environments/math/tabulars inside), tabulars (1-5 columns, 1-6 rows, '
+RULE = ('trees generated recursively from the seed: lists (3 kinds, depth<=4, terms, multi-paragraph items, spaces / blank lines / \\par between \\begin{..} and the first \\item and after an \\item, groups/environments/math/tabulars inside), tabulars (1-5 columns, 1-6 rows, '
         'random colspecs with | p{} @{} >{} *{n}{}, \\multicolumn, \\hline/\\cline, empty cells, groups, math, nested tabulars), ~15% malformed documents for the rec stream; '
         'non-trivial = spec defined and the input has >= 2 items / >= 2 cells / a star, bar or argument column / a span; distinct = distinct request line')
 EXHAUSTIVE = {}
@@ -188,7 +188,7 @@ def cols_str(cols):
 
 
 # ---------------------------------------------------------------- block trees
-# ['L', code] | ['G', blocks] | ['V', ty, blocks] | ['I', ty, nsp, [[term, nsp, blocks], ...]] | ['A', ty, cspec, rows] rows = [[cell blocks, ...], ...]
+# ['L', code] | ['G', blocks] | ['V', ty, blocks] | ['I', ty, lead, [[term, lead, blocks], ...]] (lead: blanks as a string over s=space, P=blank line, Q=\\par) | ['A', ty, cspec, rows] rows = [[cell blocks, ...], ...]
 
 
 def leaf_tex(code):
@@ -206,6 +206,17 @@ def leaf_tex(code):
     raise ValueError(code)
 
 
+LEAD_TEX = {'s': ' ', 'P': '\n\n', 'Q': '\\par '}
+
+
+def lead_tex(lead):
+    return ''.join(LEAD_TEX[c] for c in lead)
+
+
+def lead_word(lead):
+    return lead.replace('Q', 'P')
+
+
 def blocks_tex(bs):
     return ''.join(block_tex(b) for b in bs)
 
@@ -221,9 +232,9 @@ def block_tex(b):
     if k == 'D':
         return '\\%s %s' % (ENVS[b[1]], blocks_tex(b[2]))
     if k == 'I':
-        s = '\\begin{%s}' % LISTS[b[1]] + ' ' * b[2]
+        s = '\\begin{%s}' % LISTS[b[1]] + lead_tex(b[2])
         for term, nsp, body in b[3]:
-            s += '\\item' + ('[%s]' % chr(term) if term else '') + ' '
+            s += '\\item' + ('[%s]' % chr(term) if term else '') + (lead_tex(nsp) or ' ')
             s += blocks_tex(body)
         return s + '\\end{%s}' % LISTS[b[1]]
     if k == 'A':
@@ -248,9 +259,9 @@ def block_words(b):
     if k == 'G': return ['G('] + blocks_words(b[1]) + [')']
     if k == 'V': return ['V%d(' % b[1]] + blocks_words(b[2]) + [')']
     if k == 'I':
-        out = ['I%d.%d(' % (b[1], b[2])]
+        out = ['I%d.%s(' % (b[1], lead_word(b[2]))]
         for term, nsp, body in b[3]:
-            out += ['it%d.%d(' % (term, nsp)] + blocks_words(body) + [')']
+            out += ['it%d.%s(' % (term, lead_word(nsp))] + blocks_words(body) + [')']
         return out + [')']
     if k == 'A':
         out = ['A%d(' % b[1]]
@@ -347,8 +358,16 @@ class Gen:
         items = []
         for _ in range(r.randint(1, 4) if r.random() < 0.95 else 0):
             term = ord(r.choice('STUVW')) if ty == 3 or r.random() < 0.1 else 0
-            items.append([term, r.randint(0, 1) if not term else 1, self.item_body(depth, ldepth)])
-        return ['I', ty, r.randint(0, 1), items]
+            items.append([term, self.lead(0.12) if not term else 's' + self.lead(0.12).replace('s', ''), self.item_body(depth, ldepth)])
+        return ['I', ty, self.lead(0.3), items]
+
+    def lead(self, ppar):
+        """blanks between \\begin{list} and the first \\item / after an \\item: spaces, blank lines, \\par"""
+        r = self.rng
+        out = 's' if r.random() < 0.5 else ''
+        if r.random() < ppar:
+            out += r.choice(['P', 'P', 'Q', 'Ps', 'PP', 'QP'])
+        return out
 
     def cell(self, depth, simple):
         r = self.rng
@@ -536,8 +555,10 @@ def tokcode(t):
 CONTAINER = ('B', '{', 'i', 'row', 'cell')
 
 
-def dom_shape(node, out):
-    """canonical shape of the children of a DOM node"""
+def dom_shape(node, out, strict=False):
+    """canonical shape of the children of a DOM node.  Blanks are dropped; `par` wrappers are dropped inside items,
+    cells, groups, environments, but shown (`P( .. )`) as a direct child of a list, array or row (`strict`):
+    the children of those must be the items / rows / cells themselves."""
     S = _classes()
     Macro = S['plasTeX'].Macro
     for c in node.childNodes:
@@ -546,10 +567,14 @@ def dom_shape(node, out):
             continue
         code = tokcode(c)
         if code == 'P':
+            if strict:
+                out.append('P(')
             dom_shape(c, out)
+            if strict:
+                out.append(')')
         elif code.startswith(('B', '{', 'i')) or code in ('row', 'cell'):
             out.append(code + '(')
-            dom_shape(c, out)
+            dom_shape(c, out, code.startswith(('Bl', 'Ba')) or code == 'row')
             out.append(')')
         else:
             out.append(code)
@@ -813,7 +838,10 @@ def corpus():
           Case('bcmd', '3 3 top 1 2 0', None),
           Case('cspec', '@: c108 | c99', {'ast': D15_TABLE[2]}),
           Case('ctoks', '64 bg eg 108 124 99', None),
-          tree_case(['I', 3, 1, [[84, 1, [['L', 't97'], ['L', 'P'], ['L', 't98'], ['I', 1, 0, [[0, 0, [['L', 't120']]], [0, 0, []]]], ['L', 't99']]], [85, 1, []]]])]
+          tree_case(['I', 3, 's', [[84, 's', [['L', 't97'], ['L', 'P'], ['L', 't98'], ['I', 1, '', [[0, '', [['L', 't120']]], [0, '', []]]], ['L', 't99']]], [85, 's', []]]]),
+          # blank line / \\par between \\begin{..} and the first \\item, top level and nested in a multi-paragraph item
+          tree_case(['I', 2, 'sP', [[0, '', [['L', 't97'], ['L', 'P'], ['L', 't98'], ['I', 1, 'P', [[0, '', [['L', 't120']]], [0, 'P', [['L', 't121']]]]], ['L', 't99']]], [0, '', [['L', 't98']]]]]),
+          tree_case(['I', 3, 'Q', [[84, 's', [['L', 't97']]], [85, 'sQ', [['L', 't98']]]]])]
     for c in cs:
         c.origin = 'corpus'
     r = rec_case('\\begin{tabular}{ll}\\bfseries a & b \\\\ \\hline c & $d$ \\\\ \\hline \\end{tabular}', 'corpus')
